@@ -22,6 +22,7 @@ package engines
 // Oracle findings (classes) come from harness/sched/oracles.go and are documented there.
 
 import (
+	"sync/atomic"
 	"bytes"
 	"crypto/sha1"
 	"encoding/json"
@@ -152,6 +153,11 @@ var ppLines []string
 var ppPoolOnce sync.Once
 var ppRes map[string]chan ppOut
 
+// hang budget shared by the workers (see ppPool)
+var ppSlow int32
+
+const ppSlowBudget = 8
+
 func ppPool() {
 	ppRes = map[string]chan ppOut{}
 	for _, l := range ppLines {
@@ -182,7 +188,20 @@ func ppPool() {
 	for i := 0; i < n; i++ {
 		go func() {
 			for l := range work {
+				// a tree that hangs does so in many cases and every one costs its deadline: after ppSlowBudget
+				// cases that ended in a hang / blocked-call finding the remaining cases are not run (they are
+				// reported as skipped, never as passed), so that a broken tree is reported in minutes
+				if atomic.LoadInt32(&ppSlow) >= ppSlowBudget {
+					ppRes[l] <- ppOut{Obs: "SKIP hang budget exhausted: not run"}
+					continue
+				}
 				o := ppRun(strings.TrimPrefix(l, "pipe "))
+				for _, f := range o.Findings {
+					if strings.HasPrefix(f.Class, "hang:") || strings.HasPrefix(f.Class, "blocks:") {
+						atomic.AddInt32(&ppSlow, 1)
+						break
+					}
+				}
 				ppRes[l] <- o
 			}
 		}()
